@@ -65,6 +65,7 @@ type Contract struct {
 	LoopDecr  map[int][]*Expr
 	LoopMod   map[int][]*Expr
 	Sites     []*SiteClause
+	ClosedHeap bool
 	SiteCount map[string]int // sites <match> = N: the function has exactly N instructions the match selects
 	ModEach   []*ModEach
 	Lets      []struct {
@@ -337,7 +338,7 @@ func findDefEq(s string) int {
 func parseContract(key string, clauses []string, where string) (*Contract, error) {
 	c := &Contract{Key: key, LoopInv: map[int][]*Clause{}, LoopDecr: map[int][]*Expr{}, LoopMod: map[int][]*Expr{}, Where: where, Props: map[string]bool{}, SafetyProps: map[string]bool{}}
 	// clauses may themselves have been continued: a clause starts with a keyword
-	kw := regexp.MustCompile(`^(requires|ensures|modifies|allocates|pure|trusted|decreases|loop|maypanic|let|safety|formals|results|witness|replay|sites|site|opaque|perreturn|exitghost|noframe|termination)\b`)
+	kw := regexp.MustCompile(`^(requires|ensures|modifies|allocates|pure|trusted|decreases|loop|maypanic|let|safety|formals|results|witness|replay|sites|site|opaque|perreturn|closedheap|exitghost|noframe|termination)\b`)
 	var merged []string
 	for _, l := range clauses {
 		l = strings.TrimSpace(l)
@@ -421,6 +422,11 @@ func parseContract(key string, clauses []string, where string) (*Contract, error
 		case "noframe":
 			// no frame condition: nothing is promised about what the function leaves unchanged
 			c.NoFrame = true
+		case "closedheap":
+			// Go memory safety, as an assumption about the entry state: every pointer stored in memory refers to an
+			// object that is already allocated (objects created later are therefore distinct from everything the
+			// heap points to). Stated only where a proof needs it; listed in the evidence as a memory-model assumption.
+			c.ClosedHeap = true
 		case "perreturn":
 			// ensures clauses are checked at each return statement separately instead of at the merged exit
 			c.PerReturn = true
